@@ -13,7 +13,7 @@ use std::thread::ThreadId;
 use std::time::Duration;
 use varlink::verif::{set_callback, Pool, PoolEvent};
 use vl_model::ctx::{hash64, load_replay, Args, Ctx};
-use vl_model::pt::{self, Fail};
+use vl_model::pt::{self, CaseResult, Fail};
 use vl_model::sock::{Peer, Scratch, Server, Wait};
 
 pub const RULE: &str = "schedules of the real thread pool, owned by the harness through blocking probes at \
@@ -25,7 +25,7 @@ long-lived jobs, every explored edge executed on the real pool; (2) random sched
 to 8 workers, 12 jobs); (3) probes through real listen(): connections opened one at a time and in bursts, \
 counting concurrently served connections. Invariants: active jobs <= max at every step; at every quiescent \
 state (no thread can move without a new submission or a job release) the queue is empty or max jobs are active; \
-every submitted job eventually runs exactly once. Plus the real listen() loop (6 rounds x 6 configurations x {burst, one at a time}, max+2 clients held open): peak concurrency <= max, and a connection among the first max left unserved for 5 s that repeats within three further runs is a stranded connection. Non-trivial: a schedule in which a submission step overlaps a \
+every submitted job eventually runs exactly once. Plus the real listen() loop (6 rounds x 6 configurations x {burst, one at a time}, max+2 clients held open): peak concurrency <= max, and a connection among the first max left unserved for 5 s that repeats within three further runs is a stranded connection. (4) open/close histories through listen() (three fixed ones and proptest-generated ones of 3..27 steps over 7 configurations): connections are opened (one call each, then held) and closed in generated order; after every step min(open, max) of the open connections must have been answered and never more than max (a stall of 4 s counts when it repeats within three further runs of the same history). Non-trivial: a schedule in which a submission step overlaps a \
 worker's dequeue/run/mark-idle window (a worker is parked at a probe while the acceptor is inside execute()); \
 distinct by (configuration, schedule).";
 
@@ -907,10 +907,211 @@ fn listen_probe(ctx: &mut Ctx, initial: usize, max: usize, burst: bool) {
     }
 }
 
+// ------------------------------------------------------------------------------------------------
+// open / close histories through listen()
+
+#[derive(Clone, Copy, Debug, PartialEq)]
+enum HOp {
+    Open,
+    /// close the k-th of the currently open connections (in order of arrival)
+    Close(usize),
+}
+
+#[derive(Debug)]
+enum HRes {
+    Held { closed_served_then_refilled: bool },
+    Bound(usize),
+    Stalled { step: usize, answered: usize, expected: usize },
+}
+
+/// A choice list read as a history: never more than max+2 connections open at a time.
+fn history_ops(max: usize, ch: &[u16]) -> Vec<HOp> {
+    let mut open = 0usize;
+    let mut ops = vec![];
+    for c in ch {
+        let wants_close = (c >> 14) == 3;
+        if open > 0 && (wants_close || open >= max + 2) {
+            ops.push(HOp::Close(((*c & 0x3fff) as usize * open) >> 14));
+            open -= 1;
+        } else {
+            ops.push(HOp::Open);
+            open += 1;
+        }
+    }
+    ops
+}
+
+fn hops_json(ops: &[HOp]) -> Value {
+    json!(ops.iter().map(|o| match o { HOp::Open => "open".to_string(), HOp::Close(k) => format!("close:{}", k) }).collect::<Vec<_>>())
+}
+
+fn hops_from(v: &Value) -> Vec<HOp> {
+    v.as_array()
+        .map(|a| {
+            a.iter()
+                .filter_map(|x| x.as_str())
+                .filter_map(|s| if s == "open" { Some(HOp::Open) } else { s.strip_prefix("close:").and_then(|k| k.parse().ok()).map(HOp::Close) })
+                .collect()
+        })
+        .unwrap_or_default()
+}
+
+/// One fresh server; connections are opened (each sends one call and stays open) and closed as the history
+/// says. After every step min(open, max) of the open connections must have been answered - a connection is
+/// answered only once a worker serves it, and stays in service until it is closed - and never more than max.
+fn run_history(initial: usize, max: usize, ops: &[HOp], patience: Duration) -> HRes {
+    PASS.store(true, Ordering::SeqCst);
+    set_callback(None);
+    let scratch = Scratch::new("c14h");
+    let addr = scratch.unix_addr("c14h.sock");
+    let (svc, _p) = vl_tsvc::t_service();
+    let active = Arc::new(AtomicUsize::new(0));
+    let peak = Arc::new(AtomicUsize::new(0));
+    let server = Server::start(Counting { inner: svc, active: active.clone(), peak: peak.clone() }, &addr, initial, max, 0);
+    let t0 = std::time::Instant::now();
+    while active.load(Ordering::SeqCst) > 0 && t0.elapsed() < Duration::from_secs(5) {
+        std::thread::sleep(Duration::from_millis(2));
+    }
+    peak.store(0, Ordering::SeqCst);
+    let mut peers: Vec<(Peer, bool)> = vec![];
+    let mut res = HRes::Held { closed_served_then_refilled: false };
+    let mut closed_served = false;
+    let mut interesting = false;
+    let mut serial = 0usize;
+    'ops: for (step, op) in ops.iter().enumerate() {
+        match op {
+            HOp::Open => {
+                if let Ok(mut p) = Peer::connect(&addr) {
+                    p.send(&vl_model::wire::encode(&json!({"method": "org.verif.test.Echo", "parameters": {"token": format!("h{}", serial), "n": serial}}), vl_model::wire::Style::Compact));
+                    serial += 1;
+                    peers.push((p, false));
+                }
+            }
+            HOp::Close(k) => {
+                if *k < peers.len() {
+                    let (p, served) = peers.remove(*k);
+                    if served && !peers.is_empty() {
+                        closed_served = true;
+                    }
+                    drop(p);
+                }
+            }
+        }
+        let expected = peers.len().min(max);
+        let t = std::time::Instant::now();
+        loop {
+            for (p, answered) in peers.iter_mut() {
+                if !*answered && matches!(p.wait_finals(1, Duration::from_millis(3)), Wait::Reached) {
+                    *answered = true;
+                }
+            }
+            let count = peers.iter().filter(|(_, a)| *a).count();
+            if count > max {
+                res = HRes::Bound(count);
+                break 'ops;
+            }
+            if count >= expected {
+                if closed_served && matches!(op, HOp::Open) && count == max {
+                    interesting = true;
+                }
+                break;
+            }
+            if t.elapsed() > patience {
+                res = HRes::Stalled { step, answered: count, expected };
+                break 'ops;
+            }
+        }
+    }
+    if let HRes::Held { .. } = res {
+        let pk = peak.load(Ordering::SeqCst);
+        if pk > max {
+            res = HRes::Bound(pk);
+        } else {
+            res = HRes::Held { closed_served_then_refilled: interesting };
+        }
+    }
+    drop(peers);
+    let _ = server.stop();
+    res
+}
+
+const HISTORY_CONFIGS: [(usize, usize); 7] = [(1, 2), (1, 3), (2, 3), (1, 4), (2, 4), (3, 4), (1, 1)];
+
+fn history_case(initial: usize, max: usize, ops: &[HOp]) -> Value {
+    json!({"initial": initial, "max": max, "history": hops_json(ops)})
+}
+
+/// Judge one history; a stall counts only if it repeats within three further runs of the same history.
+fn judge_history(ctx: &mut Ctx, initial: usize, max: usize, ops: &[HOp]) -> CaseResult {
+    let patience = Duration::from_secs(4);
+    match run_history(initial, max, ops, patience) {
+        HRes::Held { closed_served_then_refilled } => {
+            ctx.case(if closed_served_then_refilled { Some(hash64(&(initial, max, hops_json(ops).to_string(), "history"))) } else { None });
+            ctx.class("listen:open-close-history");
+            ctx.sample(|| history_case(initial, max, ops));
+            Ok(())
+        }
+        HRes::Bound(n) => Err(Fail::new(
+            "listen/bound-exceeded",
+            format!("listen(initial={}, max={}) history {}: {} connections were in service at the same time", initial, max, hops_json(ops), n),
+        )),
+        HRes::Stalled { step, answered, expected } => {
+            for _ in 0..3 {
+                if let HRes::Stalled { step: s2, answered: a2, expected: e2 } = run_history(initial, max, ops, patience) {
+                    return Err(Fail::new(
+                        "listen/stranded-connection",
+                        format!(
+                            "listen(initial={}, max={}) history {}: after step {} only {} of the {} connections that should be in service had been answered within 4 s (repetition: step {}, {} of {})",
+                            initial, max, hops_json(ops), step, answered, expected, s2, a2, e2
+                        ),
+                    ));
+                }
+            }
+            ctx.inconclusive(&format!("listen(initial={}, max={}) history {}: stalled once at step {}, not repeated in 3 further runs", initial, max, hops_json(ops), step));
+            Ok(())
+        }
+    }
+}
+
+fn listen_histories(ctx: &mut Ctx, cases: u32) {
+    // fixed histories first: a connection that made the pool grow ends while an older one stays, then the
+    // pool is filled to its limit again
+    for (initial, max) in [(1usize, 3usize), (1, 4), (2, 4)] {
+        let mut ops = vec![HOp::Open, HOp::Open, HOp::Close(1)];
+        for _ in 0..max {
+            ops.push(HOp::Open);
+        }
+        ops.extend([HOp::Close(0), HOp::Open, HOp::Close(1), HOp::Close(1), HOp::Open, HOp::Open]);
+        if let Err(f) = judge_history(ctx, initial, max, &ops) {
+            ctx.violation(&f.key, &f.what, "c14-history", history_case(initial, max, &ops));
+            return;
+        }
+    }
+    let strat = (0usize..HISTORY_CONFIGS.len(), prop::collection::vec(any::<u16>(), 3..28));
+    let r = pt::check_with(ctx, "c14-history", cases, 10, 90_000, strat, |ctx, (cfg, ch)| {
+        let (initial, max) = HISTORY_CONFIGS[*cfg];
+        let ops = history_ops(max, ch);
+        judge_history(ctx, initial, max, &ops)
+    });
+    if let Some(((cfg, ch), f)) = r {
+        let (initial, max) = HISTORY_CONFIGS[cfg];
+        let ops = history_ops(max, &ch);
+        ctx.violation(&f.key, &f.what, "c14-history", history_case(initial, max, &ops));
+    }
+}
+
 fn replay(ctx: &mut Ctx, v: &Value) {
     let cj = &v["case"];
     ctx.case(None);
     ctx.force_sample(cj.clone());
+    if cj.get("history").is_some() {
+        let (initial, max) = (cj["initial"].as_u64().unwrap_or(1) as usize, cj["max"].as_u64().unwrap_or(2) as usize);
+        let ops = hops_from(&cj["history"]);
+        if let Err(f) = judge_history(ctx, initial, max, &ops) {
+            ctx.violation(&f.key, &f.what, "c14-history", history_case(initial, max, &ops));
+        }
+        return;
+    }
     if let Some(q) = cj.get("quiet_ms").and_then(|q| q.as_u64()) {
         listen_quiet(ctx, cj["initial"].as_u64().unwrap_or(1) as usize, cj["max"].as_u64().unwrap_or(2) as usize, q);
         return;
@@ -1014,6 +1215,10 @@ pub fn run(args: &Args) -> ! {
             listen_probe(&mut ctx, initial, max, false);
             listen_probe(&mut ctx, initial, max, true);
         }
+    }
+    if !ctx.failed() {
+        let n = ctx.tier.pick(60, 1_500);
+        listen_histories(&mut ctx, n);
     }
     let _: HashMap<u8, u8> = HashMap::new();
     ctx.finish()
